@@ -84,6 +84,9 @@ func (p *Provider) start(ctx context.Context, ammoFile afero.File) error {
 		if p.Passes != 0 && passNum >= p.Passes {
 			break
 		}
+		if p.Limit != 0 && ammoNum >= p.Limit {
+			break
+		}
 		_, err = ammoFile.Seek(0, 0)
 		if err != nil {
 			return errors.Wrap(err, "Failed to seek ammo file")
